@@ -21,7 +21,7 @@ NewClient(lg, v111, http) ==
      pend |-> <<>>, nsub |-> <<>>, per |-> <<>>, grant |-> <<>>,
      tok |-> "nil", tokq |-> <<>>, dispW |-> <<>>, unsent |-> {},
      recheck |-> <<>>, owed |-> <<>>, stale |-> {}, intok |-> 0, trigc |-> <<>>,
-     gotByGet |-> <<>>, taintG |-> FALSE, taintU |-> FALSE, taintW |-> FALSE, dropped |-> <<>>, hUnsub |-> {}, strayGot |-> <<>>,
+     gotByGet |-> <<>>, taintG |-> FALSE, taintU |-> FALSE, taintW |-> FALSE, dropped |-> <<>>, hUnsub |-> {}, strayGot |-> <<>>, unsendPend |-> {},
      lastTokT |-> 0, lastAcc |-> <<>>, tid |-> "", dispCalled |-> {}]
 
 InitO(tr) ==
@@ -370,7 +370,9 @@ TrigLine(cl, rid) ==
 
 H_note0(r) ==
     CASE r.kind = "unsend" /\ r.c \in DOMAIN o.conns ->
-            Res(SetConn(o, r.c, [o.conns[r.c] EXCEPT !.unsent = @ \cup {r.rid}, !.stale = @ \cup {r.rid}, !.taintU = TRUE]), {})
+            \* finding KF-U is about resources marked unsent although the client still holds them; whether this one is
+            \* such is known once the client has processed the frame the collection belongs to (SettleUnsend)
+            Res(SetConn(o, r.c, [o.conns[r.c] EXCEPT !.unsent = @ \cup {r.rid}, !.stale = @ \cup {r.rid}, !.unsendPend = @ \cup {r.rid}]), {})
       [] r.kind = "dispose" /\ r.c \in DOMAIN o.conns ->
             LET cl == o.conns[r.c]
                 \* the subscription is disposed while continuations are parked on it, or while a request
@@ -843,6 +845,15 @@ Handle(r) ==
       [] r.e = "panic" -> Res(o, {V("C15", "gateway process crashed: " \o r.msg, ""), V("C20", "gateway process crashed: " \o r.msg, "")})
       [] OTHER -> Res(o, {})
 
+(* after a frame was processed by the reference client: a resource the gateway marked unsent that the client still *)
+(* holds is the miscount of finding KF-U (the connection is tainted from then on); one the client has dropped is a  *)
+(* correct unsend                                                                                                    *)
+SettleUnsend(oo, c) ==
+    IF c \notin DOMAIN oo.conns \/ oo.conns[c].unsendPend = {} THEN oo
+    ELSE LET cl == oo.conns[c]
+             wrong == cl.unsendPend \cap Held(cl.direct, cl.res)
+         IN SetConn(oo, c, [cl EXCEPT !.unsendPend = {}, !.taintU = @ \/ wrong # {}])
+
 Finish(vs) ==
     /\ JsonSerialize("viol.json", SetToSeq(vs))
     /\ TLCSet(1, TRUE)
@@ -851,7 +862,8 @@ TraceInit == l = 1 /\ o = InitO("") /\ viol = {} /\ TLCSet(1, FALSE)
 
 TraceNext ==
     /\ l <= Len(Trace)
-    /\ LET res == Handle(Trace[l])
+    /\ LET res0 == Handle(Trace[l])
+           res == IF Trace[l].e \in {"cres", "cev"} THEN [o |-> SettleUnsend(res0.o, Trace[l].c), v |-> res0.v] ELSE res0
        IN /\ o' = res.o
           /\ viol' = viol \cup res.v
           /\ l' = l + 1
